@@ -230,7 +230,7 @@ class ConformerGenerator(object):
         if self.first == -1:
             self.first_conformers = self.max_conformers
         else:
-            self.first_conformers = self.first
+            self.first_conformers = min(self.first, self.max_conformers)
         logging.debug("Embedding %d conformers for %s" % (n_confs, log_name))
         AllChem.EmbedMultipleConfs(
             mol,
